@@ -180,11 +180,18 @@ class Termination(explore.Scenario):
 
         consumer = None
         if life == "open-consumer":
-            def consume():
+            nconsumers = P.get("consumers", 1)
+            done_consumers = []
+
+            def consume(i=0):
                 consumer_out["value"] = repr(d.get_message())[:60]
-                consumer_out["returned"] = True
+                done_consumers.append(i)
+                consumer_out["returned"] = len(done_consumers) == nconsumers
             consumer = T(target=consume, name="app-consumer")
             consumer.start()
+            for i in range(1, nconsumers):
+                # further application threads blocked in get_message() on the same connection
+                T(target=consume, args=(i,), name=f"app-consumer{i}").start()
             n.settle(0.5)
 
         # ---- the termination cause, under exploration -------------------------------------------------------
@@ -342,7 +349,8 @@ class Termination(explore.Scenario):
         obs = rt.observations
         if rt.verdict in ("not-applicable",):
             return []
-        shape = f"{P['role']}:{P['life']}:{P['cause']}" + (":sctp" if P.get("transport") == "sctp" else "")
+        shape = f"{P['role']}:{P['life']}:{P['cause']}" + (":sctp" if P.get("transport") == "sctp" else "") + (
+            f":consumers{P['consumers']}" if P.get("consumers", 1) > 1 else "")
         if P["life"] == "starting" and (rt.verdict == "handshake-failed" or not obs.get("reached")):
             died = [(t.name, type(t.exc).__name__) for t in rt.crashed_threads() if t.library]
             return [(f"C08:start-never-opens:{shape}", f"start() with a willing peer did not reach Open ({rt.verdict}); threads "
@@ -402,6 +410,9 @@ def sctp_cases():
 
 
 def plan(tier):
+    # two application threads blocked in get_message() when the connection ends
+    for role, cause in (("server", "eof"), ("client", "close"), ("server", "dpr"), ("client", "rst")):
+        yield dict(role=role, life="open-consumer", cause=cause, consumers=2), (1 if (role, cause) == ("server", "eof") or tier == "thorough" else 0)
     for p in sctp_cases():
         key = (p["role"], p["life"], p["cause"])
         deep_sctp = {("client", "connecting", "refuse"), ("client", "open-outbound", "rst"), ("server", "open-idle", "eof"),
